@@ -1117,11 +1117,26 @@ def Q_rules(ctx, rule="Q"):
             ctx.check(ok3, rule + "3", "lookup|%s" % key, where, "the id produced by Topo indexes self.graph unchanged", why)
         # Q4: try_* : no callback after the Err edge
         if key in ("try_fold", "try_for_each"):
+            b_api = b
+            deleg_ok = True
+            if not m.param_calls(b):
+                # delegation to a sibling (try_for_each -> try_fold): the loop is checked there, the adapting closure must hand
+                # the callback's result through unchanged
+                cands = [bx for bx in (fb.bodies[i] for i in sorted(m.reach_calls(b.id))) if bx.id != b.id and bx.kind == "fn" and
+                         m.param_calls(bx) and any(callee_path(t2) == TOPO_NEXT for _, t2 in bx.calls())]
+                if len(cands) == 1:
+                    for cid in sorted(fb.bodies):
+                        cbx = fb.bodies[cid]
+                        if cbx.kind == "closure" and cbx.parent == b.id and m.param_calls(cbx):
+                            cs = fl.sources_local(cbx, 0, ("E",))
+                            if not cs or not all(s.kind == "usercall" for s in cs):
+                                deleg_ok = False
+                    b = cands[0]
             pcs = [bb for bb, t, pn in m.param_calls(b)]
             frs = [bb for bb, t in b.calls() if callee_path(t) == "std::ops::FromResidual::from_residual"]
             bad = [x for x in frs if set(pcs) & b.reachable(x)]
-            esrc = fl.sources_local(b, 0, ("E",))
-            ok4 = bool(frs) and not bad and bool(esrc) and all(s.kind == "usercall" for s in esrc)
+            esrc = fl.sources_local(b_api, 0, ("E",))
+            ok4 = bool(frs) and not bad and bool(esrc) and all(s.kind == "usercall" for s in esrc) and deleg_ok
             ctx.check(ok4, rule + "4", "first-error|%s" % key, where,
                       "%s returns the callback's first error and invokes nothing afterwards" % key,
                       "error path of %s: from_residual sites %s, callback reachable after error: %s, error sources %s" % (key, frs, bad, [fmt_src(s) for s in esrc][:3]))
@@ -1150,7 +1165,8 @@ def Q_rules(ctx, rule="Q"):
             continue
         n += 1
         calls = [(bb, t) for bb, t in b.calls()]
-        srcc = [(bb, t) for bb, t in calls if (callee_path(t) or "").endswith("::" + fn_)]
+        alts = {"node_references": ("node_references", "raw_nodes", "node_weights"), "node_weights_mut": ("node_weights_mut",)}[fn_]
+        srcc = [(bb, t) for bb, t in calls if (callee_path(t) or "").split("::")[-1] in alts]
         sel = [callee_path(t) for bb, t in calls if callee_path(t) in SELECTIVE_ITER or callee_path(t) in MORE_ITER]
         g_ok = False
         if srcc:
@@ -1185,7 +1201,24 @@ def G_rules(ctx, rule="G"):
                 addn.append((bx, bb, t))
     ok1 = False
     why = "expected exactly one add_node site in from_graph, found %d" % len(addn)
-    if len(addn) == 1:
+    if len(addn) == 1 and addn[0][0].id == fg.id and loop_region(ctx, fg, addn[0][1]) is not None:
+        # `for f in fn_graph.iter_insertion() { graph.add_node(fn_info(f)); }`
+        bx, bb, t = addn[0]
+        lr = loop_region(ctx, fg, bb)
+        ws = fl.sources_operand(bx, t["args"][1])
+        from_cb = bool(ws) and all(s_.kind == "usercall" for s_ in ws)
+        chain = iterator_chain(ctx, fg, lr["iter_expr"]) if lr.get("iter_expr") is not None else []
+        names = [c[0] for c in chain if not c[0].startswith("inline:")]
+        sel = [x for x in names if x in SELECTIVE_ITER or x in MORE_ITER]
+        src_ok = any("node_references" in x or "node_weights" in x or "raw_nodes" in x for x in names) or \
+            any(c[0].startswith("inline:fn_graph::FnGraph::<F>::iter_insertion") for c in chain)
+        gs_ = [g for g in cond_guards(fg, bb) if g[0] in lr["blocks"] and g[0] != lr.get("switch_bb")]
+        pcs = m.param_calls(bx)
+        arg_ok = len(pcs) == 1 and bool(fl.sources_operand(bx, pcs[0][1]["args"][1]))
+        ok1 = from_cb and src_ok and not sel and not gs_ and not lr["early_exits"] and arg_ok
+        why = "weight from callback: %s; unfiltered insertion-order loop: %s (chain %s); unconditional: %s; no early exit: %s" % (
+            from_cb, src_ok and not sel, [c[0] for c in chain], not gs_, not lr["early_exits"])
+    elif len(addn) == 1:
         bx, bb, t = addn[0]
         ws = fl.sources_operand(bx, t["args"][1])
         from_cb = bool(ws) and all(s.kind == "usercall" for s in ws)
@@ -1223,15 +1256,38 @@ def G_rules(ctx, rule="G"):
         has_raw = any(x.endswith("::raw_edges") for x in names)
         maps = [c for c in chain if c[0] == "std::iter::Iterator::map"]
         tup_ok = False
-        if len(maps) == 1:
-            fcl = closure_of_arg(ctx, maps[0][1], maps[0][2][2][1])
-            if fcl is not None:
-                re_ = return_expr(fcl)
-                if re_ is not None and re_.kind == "agg" and re_[1] == "tuple" and len(re_[4]) == 3:
-                    a, c, w = [strip_refs(x) for x in re_[4]]
-                    tup_ok = a.kind == "call" and a[1].endswith("Edge::<E, Ix>::source") and c.kind == "call" and \
-                        c[1].endswith("Edge::<E, Ix>::target") and w.kind == "field"
-                    why = "edge tuple is (%s, %s, %s)" % (fmt_expr(a, fcl), fmt_expr(c, fcl), fmt_expr(w, fcl))
+        # compose the maps from the raw edge outwards: tags of the tuple elements
+        tags = None
+        bad_map = None
+        for mp in reversed(maps):
+            fcl = closure_of_arg(ctx, mp[1], mp[2][2][1])
+            re_ = return_expr(fcl) if fcl is not None else None
+            if re_ is None or not (re_.kind == "agg" and re_[1] == "tuple" and len(re_[4]) == 3):
+                bad_map = "a map over the edges does not produce a 3-tuple"
+                break
+            new = []
+            for x in re_[4]:
+                x = strip_refs(x)
+                if tags is None:
+                    if x.kind == "call" and x[1].endswith("Edge::<E, Ix>::source"):
+                        new.append("src")
+                    elif x.kind == "call" and x[1].endswith("Edge::<E, Ix>::target"):
+                        new.append("dst")
+                    elif x.kind == "field" and strip_refs(x[1]).kind == "arg":
+                        new.append("w")
+                    else:
+                        new.append("?" + fmt_expr(x, fcl))
+                else:
+                    if x.kind == "field" and strip_refs(x[1]).kind == "arg" and isinstance(x[2], int) and x[2] < len(tags):
+                        new.append(tags[x[2]])
+                    else:
+                        new.append("?" + fmt_expr(x, fcl))
+            tags = new
+        if tags is not None and bad_map is None:
+            tup_ok = tags == ["src", "dst", "w"]
+            why = "edge tuple is %s" % (tags,)
+        elif bad_map:
+            why = bad_map
         gs = [c for c in chain if c[0].endswith("::raw_edges")]
         g_ok = False
         if gs:
@@ -1244,7 +1300,23 @@ def G_rules(ctx, rule="G"):
                     ge = strip_refs(ge[1])
                 else:
                     break
-            g_ok = ge == E(("arg", 1)) and gs[0][1].id == fg.id
+            def peel(ge_):
+                while ge_.kind in ("call", "field"):
+                    if ge_.kind == "call" and ge_[1] == "std::ops::Deref::deref":
+                        ge_ = strip_refs(ge_[2][0])
+                    elif ge_.kind == "field":
+                        ge_ = strip_refs(ge_[1])
+                    else:
+                        break
+                return ge_
+            cur_body = gs[0][1]
+            # through crate-local helpers that return the iterator: a helper's parameter is the argument at its (inlined) call
+            j = chain.index(gs[0])
+            for k in range(j - 1, -1, -1):
+                if ge.kind == "arg" and chain[k][0] == "inline:" + cur_body.id and 1 <= ge[1] <= len(chain[k][2][2]):
+                    ge = peel(strip_refs(chain[k][2][2][ge[1] - 1]))
+                    cur_body = chain[k][1]
+            g_ok = ge == E(("arg", 1)) and cur_body.id == fg.id
         ok2 = has_raw and not sel and tup_ok and g_ok
         if not ok2:
             why = "raw_edges of the given graph: %s/%s, adaptors %s, %s" % (has_raw, g_ok, sel, why)
@@ -1278,7 +1350,8 @@ def G_rules(ctx, rule="G"):
                       "every return path of from_graph runs the node copy (or the graph has no nodes)",
                       "from_graph can return without copying the nodes for a graph that has nodes")
     elif len(addn) == 1 and addn[0][0].id == fg.id:
-        ctx.check(bypass_ok([addn[0][1]], ("::node_count",)), rule + "1", "nodes-always", where,
+        lr_ = loop_region(ctx, fg, addn[0][1])
+        ctx.check(bypass_ok([lr_["next_bb"] if lr_ else addn[0][1]], ("::node_count",)), rule + "1", "nodes-always", where,
                   "every return path of from_graph runs the node copy (or the graph has no nodes)",
                   "from_graph can return without copying the nodes for a graph that has nodes")
     if len(adde) == 1:
@@ -1328,9 +1401,10 @@ def G_rules(ctx, rule="G"):
                     ty = s["rv"]["pl"]["ty"]
                     pr = s["rv"]["pl"]["p"]
                     if pr and isinstance(pr[-1], dict) and "f" in pr[-1]:
+                        base_ty = bx.locals[s["rv"]["pl"]["l"]]["s"]
                         if ty == "edge::Edge":
                             attrs.add("edge-weight")
-                        elif ty == "NodeInfo":
+                        elif ty == "NodeInfo" or "petgraph::graph::Node<" in base_ty:
                             attrs.add("node-weight")
         ctx.check(attrs >= {"source", "target", "edge-weight", "node-weight"}, rule + "5", "eq-attrs", m.where(eqb),
                   "GraphInfo == compares node weights and (source, target, weight) of every edge",
